@@ -6,33 +6,47 @@ Mathlib's `Matrix` unfolds to in the ℝ twins.
 -/
 namespace XF
 
-abbrev Vec (n : Nat) := Fin n → Float
-abbrev Mat (m n : Nat) := Fin m → Fin n → Float
+/-- Vectors and matrices are *data* (arrays), not closures: a closure-valued definition is eta-expanded by the
+compiler, so its body would be re-evaluated at every entry access (exponential in nesting depth). -/
+structure Vec (n : Nat) where
+  a : Array Float
+structure Mat (m n : Nat) where
+  a : Array Float     -- row-major
+
+instance {n : Nat} : CoeFun (Vec n) (fun _ => Fin n → Float) := ⟨fun v i => v.a.getD i.val 0.0⟩
+instance {m n : Nat} : CoeFun (Mat m n) (fun _ => Fin m → Fin n → Float) :=
+  ⟨fun A i j => A.a.getD (i.val * n + j.val) 0.0⟩
 
 def fpi : Float := 3.141592653589793
 
-def vecL {n : Nat} (l : List Float) : Vec n := fun i => l.getD i.val 0.0
-def matL {m n : Nat} (l : List (List Float)) : Mat m n := fun i j => (l.getD i.val []).getD j.val 0.0
+def vforce {n : Nat} (f : Fin n → Float) : Vec n := ⟨((List.finRange n).map f).toArray⟩
+def mforce {m n : Nat} (f : Fin m → Fin n → Float) : Mat m n :=
+  ⟨((List.finRange m).flatMap fun i => (List.finRange n).map (f i)).toArray⟩
+
+def vecL {n : Nat} (l : List Float) : Vec n := ⟨l.toArray⟩
+def matL {m n : Nat} (l : List (List Float)) : Mat m n := ⟨l.flatten.toArray⟩
 
 def sumFin {n : Nat} (f : Fin n → Float) : Float :=
   (List.finRange n).foldl (fun acc i => acc + f i) 0.0
 
 def vdot {n : Nat} (v w : Vec n) : Float := sumFin fun i => v i * w i
-def matMul {m k n : Nat} (A : Mat m k) (B : Mat k n) : Mat m n := fun i j => sumFin fun l => A i l * B l j
-def matVec {m n : Nat} (A : Mat m n) (v : Vec n) : Vec m := fun i => sumFin fun j => A i j * v j
-def vecMat {m n : Nat} (v : Vec m) (A : Mat m n) : Vec n := fun j => sumFin fun i => v i * A i j
-def matT {m n : Nat} (A : Mat m n) : Mat n m := fun i j => A j i
-def matId {n : Nat} : Mat n n := fun i j => if i = j then 1.0 else 0.0
-def matAdd {m n : Nat} (A B : Mat m n) : Mat m n := fun i j => A i j + B i j
-def matSub {m n : Nat} (A B : Mat m n) : Mat m n := fun i j => A i j - B i j
-def matNeg {m n : Nat} (A : Mat m n) : Mat m n := fun i j => - A i j
-def matSmul {m n : Nat} (c : Float) (A : Mat m n) : Mat m n := fun i j => c * A i j
-def matDivS {m n : Nat} (A : Mat m n) (c : Float) : Mat m n := fun i j => A i j / c
-def vAdd {n : Nat} (v w : Vec n) : Vec n := fun i => v i + w i
-def vSub {n : Nat} (v w : Vec n) : Vec n := fun i => v i - w i
-def vNeg {n : Nat} (v : Vec n) : Vec n := fun i => - v i
-def vSmul {n : Nat} (c : Float) (v : Vec n) : Vec n := fun i => c * v i
-def vDivS {n : Nat} (v : Vec n) (c : Float) : Vec n := fun i => v i / c
+def matMul {m k n : Nat} (A : Mat m k) (B : Mat k n) : Mat m n := mforce fun i j => sumFin fun l => A i l * B l j
+def matVec {m n : Nat} (A : Mat m n) (v : Vec n) : Vec m := vforce fun i => sumFin fun j => A i j * v j
+def vecMat {m n : Nat} (v : Vec m) (A : Mat m n) : Vec n := vforce fun j => sumFin fun i => v i * A i j
+def matT {m n : Nat} (A : Mat m n) : Mat n m := mforce fun i j => A j i
+def matId {n : Nat} : Mat n n := mforce fun i j => if i = j then 1.0 else 0.0
+def matAdd {m n : Nat} (A B : Mat m n) : Mat m n := mforce fun i j => A i j + B i j
+def matSub {m n : Nat} (A B : Mat m n) : Mat m n := mforce fun i j => A i j - B i j
+def matNeg {m n : Nat} (A : Mat m n) : Mat m n := mforce fun i j => - A i j
+def matSmul {m n : Nat} (c : Float) (A : Mat m n) : Mat m n := mforce fun i j => c * A i j
+def matDivS {m n : Nat} (A : Mat m n) (c : Float) : Mat m n := mforce fun i j => A i j / c
+def vAdd {n : Nat} (v w : Vec n) : Vec n := vforce fun i => v i + w i
+def vSub {n : Nat} (v w : Vec n) : Vec n := vforce fun i => v i - w i
+def vNeg {n : Nat} (v : Vec n) : Vec n := vforce fun i => - v i
+def vSmul {n : Nat} (c : Float) (v : Vec n) : Vec n := vforce fun i => c * v i
+def vDivS {n : Nat} (v : Vec n) (c : Float) : Vec n := vforce fun i => v i / c
+def mrow {m n : Nat} (A : Mat m n) (i : Fin m) : Vec n := vforce fun j => A i j
+def mcol {m n : Nat} (A : Mat m n) (j : Fin n) : Vec m := vforce fun i => A i j
 
 def matDet3 (A : Mat 3 3) : Float :=
   A 0 0 * A 1 1 * A 2 2 - A 0 0 * A 1 2 * A 2 1 - A 0 1 * A 1 0 * A 2 2
@@ -59,7 +73,7 @@ def fmin (a b : Float) : Float := if b < a then b else a
 def ofBitsStr (s : String) : Float := Float.ofBits (UInt64.ofNat s.toNat!)
 def toBitsStr (x : Float) : String := toString x.toBits.toNat
 
-def vecOut {n : Nat} (v : Vec n) : List Float := (List.finRange n).map v
-def matOut {m n : Nat} (A : Mat m n) : List Float := ((List.finRange m).map fun i => (List.finRange n).map (A i)).flatten
+def vecOut {n : Nat} (v : Vec n) : List Float := (List.finRange n).map fun i => v i
+def matOut {m n : Nat} (A : Mat m n) : List Float := (List.finRange m).flatMap fun i => (List.finRange n).map fun j => A i j
 
 end XF
